@@ -21,6 +21,7 @@ type mapRange struct {
 	stmt   *ast.RangeStmt
 	info   *types.Info
 	ord    int
+	label  string // what identifies the loop besides its function: the repository functions its body calls, else the map type
 }
 
 // mapRanges lists every range statement over a map in non-generated, non-test
@@ -39,6 +40,7 @@ func mapRanges(c *core.Ctx, rels ...string) []mapRange {
 					continue
 				}
 				n := 0
+				labels := map[string]int{}
 				ast.Inspect(fd.Body, func(nd ast.Node) bool {
 					rs, ok := nd.(*ast.RangeStmt)
 					if !ok {
@@ -46,7 +48,12 @@ func mapRanges(c *core.Ctx, rels ...string) []mapRange {
 					}
 					if _, isMap := p.TypesInfo.TypeOf(rs.X).Underlying().(*types.Map); isMap {
 						n++
-						out = append(out, mapRange{rel, core.DeclName(fd), rs, p.TypesInfo, n})
+						lbl := rangeLabel(p.TypesInfo, rs)
+						labels[lbl]++
+						if k := labels[lbl]; k > 1 {
+							lbl += fmt.Sprintf("#%d", k)
+						}
+						out = append(out, mapRange{rel, core.DeclName(fd), rs, p.TypesInfo, n, lbl})
 					}
 					return true
 				})
@@ -54,6 +61,48 @@ func mapRanges(c *core.Ctx, rels ...string) []mapRange {
 		}
 	}
 	return out
+}
+
+// rangeLabel names a map-range loop by what its body does rather than by its
+// position: the repository functions and methods called directly in the body
+// (sorted, at most four), or the ranged map's type when it calls none.
+func rangeLabel(info *types.Info, rs *ast.RangeStmt) string {
+	set := map[string]bool{}
+	ast.Inspect(rs.Body, func(n ast.Node) bool {
+		call, ok := n.(*ast.CallExpr)
+		if !ok {
+			return true
+		}
+		var obj types.Object
+		switch f := ast.Unparen(call.Fun).(type) {
+		case *ast.Ident:
+			obj = info.Uses[f]
+		case *ast.SelectorExpr:
+			obj = info.Uses[f.Sel]
+		}
+		fn, ok := obj.(*types.Func)
+		if !ok || fn.Pkg() == nil || !strings.HasPrefix(fn.Pkg().Path(), core.ModPath) {
+			return true
+		}
+		name := fn.Name()
+		if sig, ok := fn.Type().(*types.Signature); ok && sig.Recv() != nil {
+			name = core.RecvTypeName(sig.Recv().Type()) + "." + name
+		}
+		set[name] = true
+		return true
+	})
+	var names []string
+	for k := range set {
+		names = append(names, k)
+	}
+	sort.Strings(names)
+	if len(names) > 4 {
+		names = names[:4]
+	}
+	if len(names) == 0 {
+		return "<" + types.TypeString(info.TypeOf(rs.X), func(*types.Package) string { return "" }) + ">"
+	}
+	return strings.Join(names, "+")
 }
 
 // loopEffect is one effect of a loop body (or callback) on state that
@@ -646,7 +695,7 @@ func checkC10(c *core.Ctx, l *core.Ledger) {
 	sites := mapRanges(c, rels...)
 	l.Units["map_range_sites"] = len(sites)
 	for _, r := range sites {
-		key := fmt.Sprintf("%s.%s:range#%d", r.pkgRel, r.fn, r.ord)
+		key := fmt.Sprintf("%s.%s:range→%s", r.pkgRel, r.fn, r.label)
 		pos := c.Rel(r.stmt.Pos())
 		li := findRangeLoop(c, r.stmt.For, r.pkgRel)
 		if li == nil {
@@ -696,7 +745,7 @@ func checkC10(c *core.Ctx, l *core.Ledger) {
 			l.Add(o)
 		}
 	}
-	l.Floor("MAPORD", 11)
+	l.Floor("MAPORD", 8)
 	checkWalkCallbacks(c, l)
 	checkNondetSources(c, l)
 	if tmplRangeHook != nil {
